@@ -92,6 +92,7 @@ class Prog:
     subs: dict = field(default_factory=dict)  # name -> Sub
     gvars: list = field(default_factory=list)  # [(name, "u"|"b", slot_id|None)]  ScratchVars created at top level
     mode: str = "Application"
+    display_names: dict = field(default_factory=dict)  # subroutine name -> name text given to pt.Subroutine(name=...)
 
 
 # ======================================================================= build ===========================
@@ -127,7 +128,7 @@ class Builder:
 
         ns = {"pt": pt, "_body": _body}
         exec(compile(src, f"<sub {name}>", "exec", dont_inherit=True), ns)
-        self.fns[name] = pt.Subroutine(rt, name=name)(ns[name])
+        self.fns[name] = pt.Subroutine(rt, name=self.prog.display_names.get(name, name))(ns[name])
 
     def build(self):
         return self.stmt(self.prog.main, dict(self.gvars))
